@@ -280,6 +280,7 @@ func (f *Frame) loadFactsB(v T, t types.Type, bound T) {
 	case *types.Interface:
 		// a reference held in an interface value denotes an existing object
 		f.enc.factAbout(v, Implies(App(SBool, "ptrlike", App(SInt, "tag", v)), And(Le(Zero, App(SInt, "pl_Int", v)), Le(App(SInt, "pl_Int", v), bound))))
+		f.enc.factAbout(v, Implies(App(SBool, "slicelike", App(SInt, "tag", v)), Le(SPtr(App(SSlice, "pl_Slice", v)), bound)))
 	}
 }
 
@@ -546,7 +547,11 @@ func (p *Program) tagKindAsserts() string {
 		case *types.Pointer, *types.Map, *types.Signature, *types.Chan:
 			ptr = "true"
 		}
-		fmt.Fprintf(&b, "(assert (= (uncomparable %d) %s))\n(assert (= (ptrlike %d) %s))\n", i+1, unc, i+1, ptr)
+		sl := "false"
+		if _, ok := t.Underlying().(*types.Slice); ok {
+			sl = "true"
+		}
+		fmt.Fprintf(&b, "(assert (= (uncomparable %d) %s))\n(assert (= (ptrlike %d) %s))\n(assert (= (slicelike %d) %s))\n", i+1, unc, i+1, ptr, i+1, sl)
 	}
 	return b.String()
 }
